@@ -27,7 +27,7 @@ ASSUMPTIONS = [
 ]
 PROBES = ["decodable_not_dispatched", "inject.truncated", "inject.empty", "inject.random", "inject.flip", "inject.fid_subst", "inject.seq_subst", "inject.unknown_id", "inject.repeated", "inject.stale_own_reply", "mode.renegotiate",
           "undecodable_ignored", "decodable_dispatched", "pending_seq_foreign_fid", "pending_seq_own_fid", "pending_call_timed_out_after_bad_frame",
-          "after_command_ok", "loggers_at_debug", "inject.frame_control", "pending.version", "mode.idle", "mode.pending", "mode.wrap", "wrapped_onto_stale_sequence"]
+          "after_command_ok", "pending_across_handler_switch", "loggers_at_debug", "inject.frame_control", "pending.version", "mode.idle", "mode.pending", "mode.wrap", "wrapped_onto_stale_sequence"]
 
 VERSIONS = list(range(4, 15))
 BASE = ["stackStatusHandler", "incomingMessageHandler", "messageSentHandler", "trustCenterJoinHandler", "childJoinHandler",
@@ -305,7 +305,31 @@ def run(scenario, params, tape, detail=False):
             probe("mode.renegotiate")
             if V == 4 or not cands:
                 return
-            await ez.reset()
+            if V >= 8 and "setSourceRouteDiscoveryMode" in ncp.cmds:
+                # a command is still pending when the handler is switched back to v4 by a reset; afterwards a v4 frame arrives under its sequence
+                # whose numeric frame ID (0x5A) is the pending command's ID in the OLD version and another command's in the new one
+                probe("pending_across_handler_switch")
+                hold["on"], hold["cmd"] = True, "setSourceRouteDiscoveryMode"
+                hold["reqs"].clear()
+                call = loop.create_task(ez.setSourceRouteDiscoveryMode(mode=1))
+                await asyncio.sleep(0.1)
+                seq_p = hold["reqs"][0][0].seq if hold["reqs"] else None
+                hold["on"], hold["cmd"] = False, "getValue"
+                await ez.reset()
+                if seq_p is not None:
+                    nr = len(raised)
+                    ncp.emit(bytes([seq_p, 0x80, 0x5A, 0x00]), 0.0, "bad")
+                    await asyncio.sleep(0.2)
+                    if len(raised) > nr:
+                        viol.append(("C08.noraise", "escaped", f"v{V}: EZSP.frame_received raised {raised[-1][2]} for a v4 frame with ID 0x5A after a reset with a command pending"))
+                    if call.done() and not call.cancelled() and call.exception() is None:
+                        viol.append(("C08.nocross", "completed-across-handler-switch", f"v{V}: setSourceRouteDiscoveryMode (ID 0x5A in v{V}) was still pending when reset() switched to the v4 "
+                                     f"handler; a v4 setSourceRoute reply (ID 0x5A there) under its sequence completed it with {call.result()!r}"))
+                if not call.done():
+                    call.cancel()
+                    await asyncio.sleep(0.01)
+            else:
+                await ez.reset()
             for n in cands:
                 cid = ncp.cmds[n][0]
                 nr = len(raised)
